@@ -95,6 +95,19 @@ class ModelError(Exception):
     """The interpreted code itself fails on a model input (IndexError, KeyError, ...)."""
 
 
+class PyRaise(Exception):
+    """An exception raised by the interpreted code (`raise X(...)`, a missing dict key)."""
+
+    def __init__(self, kind: str, value: Any = None) -> None:
+        super().__init__(kind)
+        self.kind = kind
+        self.value = value
+
+
+class _Yielded:
+    """Marker wrapping the list of values an interpreted generator produced."""
+
+
 class Interp:
     """Interprets the statements of one function.  `effects` receives
     (method name, receiver, evaluated args) for calls on `self` / model objects
@@ -112,6 +125,7 @@ class Interp:
         isinstance_hook: Optional[Callable[[Any, str], Optional[bool]]] = None,
         method_defs: Optional[Dict[Tuple[str, str], ast.FunctionDef]] = None,
         module_defs: Optional[Dict[str, ast.FunctionDef]] = None,
+        globals_: Optional[Dict[str, Any]] = None,
     ) -> None:
         self.env = env
         self.effect_methods = effect_methods
@@ -121,17 +135,22 @@ class Interp:
         self.isinstance_hook = isinstance_hook
         self.method_defs = method_defs or {}  # (model kind, method) -> source to interpret
         self.module_defs = module_defs or {}  # module-level functions interpreted from source
+        self.globals = globals_ or {}  # module-level names given a model value (shared with callees)
 
     # ------------------------------------------------------------ statements
     def run(self, fn: ast.FunctionDef) -> Any:
         body = fn.body
         if body and isinstance(body[0], ast.Expr) and isinstance(body[0].value, ast.Constant) and isinstance(body[0].value.value, str):
             body = body[1:]
+        is_gen = any(isinstance(n, (ast.Yield, ast.YieldFrom)) for n in _walk_no_nested_defs(fn))
+        if is_gen:
+            # generators are run eagerly: the call returns the list of yielded values
+            self.yielded: Optional[List[Any]] = []
         try:
             self.block(body)
         except _Return as r:
-            return r.value
-        return None
+            return self.yielded if is_gen else r.value
+        return self.yielded if is_gen else None
 
     def block(self, stmts: Sequence[ast.stmt]) -> None:
         for st in stmts:
@@ -197,6 +216,43 @@ class Interp:
         elif isinstance(st, ast.Assert):
             if not self.truth(self.ev(st.test)):
                 raise AssertionFailed(norm(st))
+        elif isinstance(st, ast.With):
+            for item in st.items:
+                v = self.ev(item.context_expr)
+                if item.optional_vars is not None:
+                    self.assign(item.optional_vars, v)
+            self.block(st.body)
+        elif isinstance(st, ast.Raise):
+            if st.exc is None:
+                raise Unsupported(st, "(bare raise)")
+            if isinstance(st.exc, ast.Name):
+                raise PyRaise(st.exc.id, None)
+            v = self.ev(st.exc)
+            kind = v._kind if isinstance(v, Obj) else (norm(st.exc.func) if isinstance(st.exc, ast.Call) else "Exception")
+            raise PyRaise(kind.split(".")[0] if isinstance(st.exc, ast.Call) and isinstance(st.exc.func, ast.Attribute) else kind, v)
+        elif isinstance(st, ast.Try):
+            if st.finalbody:
+                raise Unsupported(st, "(try/finally)")
+            try:
+                self.block(st.body)
+            except PyRaise as pr:
+                for h in st.handlers:
+                    names: List[str] = []
+                    if h.type is None:
+                        names = ["*"]
+                    elif isinstance(h.type, ast.Tuple):
+                        names = [norm(x) for x in h.type.elts]
+                    else:
+                        names = [norm(h.type)]
+                    if "*" in names or "Exception" in names or "BaseException" in names or pr.kind in names:
+                        if h.name:
+                            self.env[h.name] = pr.value if pr.value is not None else Opaque(pr.kind)
+                        self.block(h.body)
+                        break
+                else:
+                    raise
+            else:
+                self.block(st.orelse)
         elif isinstance(st, ast.Delete):
             for t in st.targets:
                 if not isinstance(t, ast.Subscript):
@@ -245,6 +301,8 @@ class Interp:
         if isinstance(e, ast.Name):
             if e.id in self.env:
                 return self.env[e.id]
+            if e.id in self.globals:
+                return self.globals[e.id]
             if e.id in self.syms:
                 return Sym(e.id)
             if e.id in ("True", "False", "None"):
@@ -323,14 +381,39 @@ class Interp:
                 return Opaque(c.label + "[]")
             try:
                 return c[k]
-            except (KeyError, IndexError):
-                raise ModelError(f"line {e.lineno}: `{norm(e)}` fails in the model (key {k!r})")
+            except KeyError:
+                raise PyRaise("KeyError", k)
+            except IndexError:
+                raise PyRaise("IndexError", k)
             except TypeError:
                 raise Unsupported(e, "(subscript out of the model)")
         if isinstance(e, ast.Call):
             return self.call(e)
         if isinstance(e, (ast.ListComp, ast.SetComp, ast.GeneratorExp, ast.DictComp)):
             return self.comp(e)
+        if isinstance(e, ast.Yield):
+            if getattr(self, "yielded", None) is None:
+                raise Unsupported(e, "(yield outside a modelled generator)")
+            self.yielded.append(self.ev(e.value) if e.value is not None else None)  # type: ignore[union-attr]
+            return None
+        if isinstance(e, ast.YieldFrom):
+            if getattr(self, "yielded", None) is None:
+                raise Unsupported(e, "(yield from outside a modelled generator)")
+            v = self.ev(e.value)
+            if isinstance(v, Opaque):
+                raise Unsupported(e, "(yield from an opaque value)")
+            self.yielded.extend(list(v))  # type: ignore[union-attr]
+            return None
+        if isinstance(e, ast.Lambda):
+            params = [a.arg for a in e.args.args]
+            outer = self
+
+            def fn_(*args: Any) -> Any:
+                sub = Interp(dict(outer.env), outer.effect_methods, tuple(outer.syms), outer.funcs, outer.isinstance_hook, outer.method_defs, outer.module_defs, outer.globals)
+                sub.env.update(dict(zip(params, args)))
+                return sub.ev(e.body)
+
+            return fn_
         if isinstance(e, ast.Starred):
             raise Unsupported(e, "(starred outside a call)")
         raise Unsupported(e)
@@ -376,6 +459,11 @@ class Interp:
         raise Unsupported(node, "(comparison)")
 
     def binop(self, op: ast.operator, a: Any, b: Any, node: ast.AST) -> Any:
+        hook = self.globals.get("__binop__")
+        if hook is not None:
+            r = hook(op, a, b)
+            if r is not NotImplemented:
+                return r
         if isinstance(a, Opaque) or isinstance(b, Opaque):
             return Opaque("binop")
         if isinstance(op, ast.Add) and type(a) is type(b) and isinstance(a, (int, list, tuple, str)):
@@ -431,8 +519,10 @@ class Interp:
                     return Opaque(nm)
                 try:
                     if nm == "sorted":
+                        if "key" in kwargs and callable(kwargs["key"]):
+                            return sorted(args[0], key=kwargs["key"], reverse=bool(kwargs.get("reverse", False)))
                         if "key" in kwargs:
-                            raise Unsupported(e, "(sorted with a key)")
+                            raise Unsupported(e, "(sorted with an opaque key)")
                         try:
                             return sorted(args[0], reverse=bool(kwargs.get("reverse", False)))
                         except TypeError:
@@ -452,6 +542,24 @@ class Interp:
                     return {"len": len, "set": set, "list": list, "tuple": tuple, "bool": self.truth, "int": int, "dict": dict, "frozenset": frozenset}[nm](*args)
                 except (TypeError, ValueError):
                     raise Unsupported(e, "(builtin on a model value)")
+            if (nm in self.env and (callable(self.env[nm]) or isinstance(self.env[nm], Obj))) or (nm not in self.env and nm in self.globals and (callable(self.globals[nm]) or isinstance(self.globals[nm], Obj))):
+                target = self.env[nm] if nm in self.env else self.globals[nm]
+                args = self.elts(e.args)
+                kwargs = {k.arg: self.ev(k.value) for k in e.keywords if k.arg}
+                if isinstance(target, Obj):
+                    ctor = target.get("__call__", e)
+                    return ctor(*args, **kwargs)
+                return target(*args, **kwargs)
+            if nm == "defaultdict" and len(e.args) == 1 and isinstance(e.args[0], ast.Name) and e.args[0].id in ("list", "set", "dict"):
+                import collections as _c
+
+                return _c.defaultdict({"list": list, "set": set, "dict": dict}[e.args[0].id])
+            if nm == "isinstance" and len(e.args) == 2:
+                v0 = self.ev(e.args[0])
+                classes0 = e.args[1].elts if isinstance(e.args[1], ast.Tuple) else [e.args[1]]
+                native = {"bool": bool, "int": int, "str": str, "list": list, "tuple": tuple, "dict": dict, "float": float, "set": set}
+                if isinstance(v0, (bool, int, str, list, tuple, dict, float, set, type(None))) and all(norm(c) in native for c in classes0):
+                    return any(isinstance(v0, native[norm(c)]) for c in classes0)
             if nm == "isinstance":
                 if self.isinstance_hook is not None and len(e.args) == 2:
                     v = self.ev(e.args[0])
@@ -466,7 +574,7 @@ class Interp:
                     return h(self.elts(e.args), {k.arg: self.ev(k.value) for k in e.keywords if k.arg})
                 return h(self.elts(e.args))
             if nm in self.module_defs and nm not in self.env:
-                return self.call_def(self.module_defs[nm], self.elts(e.args), e)
+                return self.call_def(self.module_defs[nm], self.elts(e.args), e, {k.arg: self.ev(k.value) for k in e.keywords if k.arg})
             # any other function: opaque result (constructors, unite_values, ...)
             for a in e.args:
                 if not isinstance(a, ast.Starred):
@@ -482,10 +590,10 @@ class Interp:
                 if isinstance(recv, Obj):
                     md = self.method_defs.get((recv._kind, meth))
                     if md is not None:
-                        return self.call_def(md, [recv] + self.elts(e.args), e)
+                        return self.call_def(md, [recv] + self.elts(e.args), e, {k.arg: self.ev(k.value) for k in e.keywords if k.arg})
                     v = recv.get(meth, e)
                     if callable(v):
-                        return v(*self.elts(e.args))
+                        return v(*self.elts(e.args), **{k.arg: self.ev(k.value) for k in e.keywords if k.arg})
                 return Opaque(meth)
             args = self.elts(e.args)
             if isinstance(recv, set) and meth in ("add", "discard", "update"):
@@ -502,6 +610,10 @@ class Interp:
             if isinstance(recv, dict) and meth in ("items", "values", "keys", "get"):
                 r = getattr(recv, meth)(*args)
                 return list(r) if meth != "get" else r
+            if isinstance(recv, str) and meth in ("split", "strip", "startswith", "endswith", "lower", "upper", "replace", "isdigit", "isdecimal", "lstrip", "rstrip") and not any(isinstance(a, Opaque) for a in args):
+                return getattr(recv, meth)(*args)
+            if isinstance(recv, str) and meth == "join" and len(args) == 1 and isinstance(args[0], (list, tuple)) and all(isinstance(x, str) for x in args[0]):
+                return recv.join(args[0])
             if isinstance(recv, str) and meth in ("join", "format"):
                 return Opaque("str")
             if isinstance(recv, (Opaque, Sym)):
@@ -510,12 +622,25 @@ class Interp:
         raise Unsupported(e, "(call)")
 
 
-def call_def(self: "Interp", fn: ast.FunctionDef, args: List[Any], node: ast.AST) -> Any:
-    """Interpret another function of the model with positional arguments."""
-    names = [a.arg for a in fn.args.posonlyargs + fn.args.args]
-    if len(args) != len(names):
+def call_def(self: "Interp", fn: ast.FunctionDef, args: List[Any], node: ast.AST, kwargs: Optional[Dict[str, Any]] = None) -> Any:
+    """Interpret another function of the model (positional and keyword arguments, constant defaults)."""
+    pos = fn.args.posonlyargs + fn.args.args
+    names = [a.arg for a in pos]
+    env0: Dict[str, Any] = {}
+    defaults = fn.args.defaults
+    for a, d in zip(pos[len(pos) - len(defaults):], defaults):
+        env0[a.arg] = self.ev(d)
+    for a, d in zip(fn.args.kwonlyargs, fn.args.kw_defaults):
+        if d is not None:
+            env0[a.arg] = self.ev(d)
+    if len(args) > len(names):
         raise Unsupported(node, f"(arity of {fn.name})")
-    sub = Interp(dict(zip(names, args)), self.effect_methods, tuple(self.syms), self.funcs, self.isinstance_hook, self.method_defs, self.module_defs)
+    env0.update(dict(zip(names, args)))
+    env0.update(kwargs or {})
+    missing = [a.arg for a in pos + fn.args.kwonlyargs if a.arg not in env0]
+    if missing:
+        raise Unsupported(node, f"(missing arguments {missing} for {fn.name})")
+    sub = Interp(env0, self.effect_methods, tuple(self.syms), self.funcs, self.isinstance_hook, self.method_defs, self.module_defs, self.globals)
     sub.steps = self.steps
     res = sub.run(fn)
     self.steps = sub.steps
@@ -523,6 +648,15 @@ def call_def(self: "Interp", fn: ast.FunctionDef, args: List[Any], node: ast.AST
 
 
 Interp.call_def = call_def  # type: ignore[attr-defined]
+
+
+def _walk_no_nested_defs(fn: ast.AST):
+    stack = list(ast.iter_child_nodes(fn))
+    while stack:
+        n = stack.pop()
+        yield n
+        if not isinstance(n, (ast.FunctionDef, ast.AsyncFunctionDef, ast.Lambda, ast.ClassDef)):
+            stack.extend(ast.iter_child_nodes(n))
 
 
 def _both_prim(a: Any, b: Any) -> bool:
